@@ -26,7 +26,8 @@ class LifxLanApi(i_controller.LightApi):
         expected = settings.get_value('default_num_lights', None)
         if expected is not None:
             actual = len(lights)
-            if actual < expected:
+            # As text when it comes from a configuration file.
+            if actual < int(expected):
                 logging.info(
                     "Expected {} devices, found {}".format(expected, actual))
         return lights
